@@ -33,6 +33,10 @@
 //  tunnel.Read                          | reply shorter / equal / longer than buffer   | read-reply-size (real transport)
 //  message objects                      | fresh per decode; readResponse/writeRequest  | cap; a message object decoded into twice: NOT
 //                                       | with a preset buffer (cap)                   | exercised (the package never does it)
+//  decoded requests HELD while later    | serve() hands each request to a goroutine    | held-requests [new, hook verif_hold.go]: 2-4 frames
+//   frames are decoded on the same      | and decodes the next frame; write payloads   | through startCall on ONE endpointServer, every
+//   endpointServer (state: per endpoint)| <= / > 64 KiB, equal / different lengths     | request read again afterwards (C13-g); end to end:
+//                                       |                                              | C01 conc stream (8 tagged connections, legacy mode)
 //  per-process state                    | none (codec is pure)                         | thousands of frames per child process
 package main
 
@@ -161,8 +165,19 @@ type Obs struct {
 	N      int     `json:"n"`
 	Code   int     `json:"code"`
 	RBytes  []Seg   `json:"rbytes,omitempty"`  // wrap: the string Hello returned / the bytes Read left in the buffer
+	Held    []HeldObs `json:"held,omitempty"`  // hold: each request as startCall returned it
+	After   []HeldObs `json:"after,omitempty"` // hold: each request read again after ALL frames were decoded
 	RErr    string  `json:"rerr,omitempty"`    // real: what the client's call returned
 	RFields []Field `json:"rfields,omitempty"` // real: the reply as the caller sees it
+}
+
+// HeldObs is one decoded request as its holder reads it.
+type HeldObs struct {
+	Err    string  `json:"err"`
+	ID     string  `json:"id"`
+	Typ    int     `json:"typ"`
+	Name   string  `json:"name"`
+	Fields []Field `json:"fields"`
 }
 
 type Case struct {
@@ -188,6 +203,9 @@ type Case struct {
 	Scen   string  `json:"scen,omitempty"`   // real: ok | cut | tail | ec
 	Cut    int     `json:"cut,omitempty"`    // real: bytes dropped from (cut) or appended to (tail) the reply
 	Reply  []Seg   `json:"reply,omitempty"`  // real: the reply frame the peer sent (filled in at run time)
+	Frames [][]Seg   `json:"frames,omitempty"` // hold: request frames decoded one after the other on ONE endpointServer
+	FNames []string  `json:"fnames,omitempty"` // hold: what each frame encodes
+	FSent  [][]Field `json:"fsent,omitempty"`
 	Obs    *Obs    `json:"obs,omitempty"`
 }
 
@@ -466,6 +484,64 @@ func genCases(seed uint64, n int) []Case {
 				Scen: scen, Cut: 1 + r.Intn(12), Cap: cp})
 		}
 	}
+	// Held requests (seeded change C13-g): k frames through startCall on one
+	// endpointServer, every request read again after the later decodes.  Write
+	// payloads on both sides of the sizes named in the code (64 KiB), payloads
+	// of equal and of different lengths, other kinds in between.
+	{
+		var reqSchemas []schemaT
+		for _, s := range schemas {
+			if _, ok := reqTypes[s.name]; ok {
+				reqSchemas = append(reqSchemas, s)
+			}
+		}
+		var wr schemaT
+		for _, s := range schemas {
+			if s.name == "writeRequest" {
+				wr = s
+			}
+		}
+		mkHold := func(items []struct {
+			s  schemaT
+			fs []Field
+		}) Case {
+			c := Case{Stream: "held-requests", Op: "hold"}
+			for i, it := range items {
+				frame := append(append(le64(uint64(100+i)), byte(reqTypes[it.s.name])), encodeBody(it.s, it.fs)...)
+				c.Frames = append(c.Frames, segsOf(frame))
+				c.FNames = append(c.FNames, it.s.name)
+				c.FSent = append(c.FSent, it.fs)
+			}
+			return c
+		}
+		type item = struct {
+			s  schemaT
+			fs []Field
+		}
+		wf := func(sess uint64, fill, n int) item {
+			return item{wr, []Field{{K: "u64", U: strconv.FormatUint(sess, 10)}, {K: "bytes", B: []Seg{{Rep: []int{fill, n}}}}}}
+		}
+		for _, sz := range [][]int{{4, 2}, {100, 100}, {1000, 1000, 1000}, {65536, 65536}, {65535, 10}, {65537, 65537}, {70000, 5}, {5, 70000, 5}, {32768, 1, 32768}} {
+			var items []item
+			for i, n := range sz {
+				items = append(items, wf(uint64(i+1), 0x41+i, n))
+			}
+			add(mkHold(items))
+		}
+		for n := 0; n < 40; n++ {
+			var items []item
+			for k := 2 + r.Intn(3); k > 0; k-- {
+				if r.Intn(3) != 0 {
+					items = append(items, item{wr, []Field{{K: "u64", U: strconv.FormatUint(r.U64(), 10)},
+						{K: "bytes", B: []Seg{{Hex: hex.EncodeToString(r.Bytes(1 + r.Intn(300)))}}}}})
+				} else {
+					s := reqSchemas[r.Intn(len(reqSchemas))]
+					items = append(items, item{s, genFields(r, s, false)})
+				}
+			}
+			add(mkHold(items))
+		}
+	}
 	// The package's own call sites: Hello, tunnel.Write / Read / Close.
 	{
 		bf := func(b []byte) Field { return Field{K: "bytes", B: segsOf(b)} }
@@ -673,6 +749,28 @@ func runCase(c *Case) {
 		realCall(c, o)
 	case "wrap":
 		wrapCall(c, o)
+	case "hold":
+		// serve() hands every decoded request to a goroutine and decodes the next
+		// frame: requests are HELD while later frames go through startCall on the
+		// same endpointServer.
+		ent := sniproxy.VerifNewServerEntry()
+		var held []*sniproxy.VerifHeldCall
+		snap := func(h *sniproxy.VerifHeldCall) HeldObs {
+			ho := HeldObs{Err: h.Err, ID: strconv.FormatUint(h.ID, 10), Typ: int(h.Typ), Name: h.Name, Fields: []Field{}}
+			if h.Err == "ok" {
+				ho.Fields = fromShim(h.Fields())
+			}
+			return ho
+		}
+		for _, f := range c.Frames {
+			h := ent.StartCall(segBytes(f))
+			held = append(held, h)
+			o.Held = append(o.Held, snap(h))
+		}
+		for _, h := range held {
+			o.After = append(o.After, snap(h))
+		}
+		o.Err = "ok"
 	case "tread":
 		o.N, o.Err = tunnelRead(c.BufLen, c.RepLen)
 	case "hread":
